@@ -87,6 +87,15 @@ def run_(ctx, model):
         with symcodec.symbolic_decoder():
             try:
                 with SgzConverter(fi.path) as c:
+                    pre = k % 4
+                    desc['reads_before_reblock'] = ['none', 'gen_trace_header', 'read_variant_headers(subset)',
+                                                    'gen_trace_header(load_all)'][pre]
+                    if pre == 1:
+                        c.gen_trace_header(0)
+                    elif pre == 2 and fi.arrays:
+                        c.read_variant_headers(tracefields=[sorted(fi.arrays)[-1]])
+                    elif pre == 3:
+                        c.gen_trace_header(0, load_all_headers=True)
                     env.quiet(c.convert_to_adv_sgz, out)
             except Exception as e:  # noqa
                 ctx.fail(f're-block of a supported file failed: {type(e).__name__}: {str(e)[:120]}', desc)
